@@ -150,8 +150,8 @@ static void readers_during_rotations(Rng& r, Program& p) {
     for (size_t i = 0; i < absent.size() && i < 7; i++) p.add(0, i % 3 == 2 ? UPDATE : INSERT, absent[(i * 3 + r.below(2)) % absent.size()], 0, r.below(3));
     for (size_t t = 1; t < p.threads.size(); t++) for (int k = 0; k < 6; k++) p.add((int)t, r.chance(500) ? CONTAINS : FIND, present[r.below((int)present.size())]);
 }
-void gen_bron(Rng& r, Program& p, int tier, const std::string&) { GenCfg g; g.caps = CAPS_BRONSON; g.nkeys_hot = r.pick({5, 5, 8, 10}); g.nkeys_cold = 3; g.max_ops = r.pick({6, 6, 8}); gen_program(r, p, tier, g); readers_during_rotations(r, p); }   // up to 13 keys: deeper trees, single and double rotations while readers traverse
-void gen_bronp(Rng& r, Program& p, int tier, const std::string&) { GenCfg g; g.caps = CAPS_BRONSON; g.nkeys_hot = r.pick({5, 5, 8, 10}); g.nkeys_cold = 3; g.max_ops = r.pick({6, 6, 8}); g.insert_forms = 1; gen_program(r, p, tier, g); readers_during_rotations(r, p); }
+void gen_bron(Rng& r, Program& p, int tier, const std::string&) { GenCfg g; g.caps = CAPS_BRONSON; g.nkeys_hot = r.pick({5, 5, 8, 10}); g.nkeys_cold = 3; g.max_ops = r.pick({6, 6, 8}); gen_program(r, p, tier, g); p.set("prefill_order", r.pick({0, 1, 2 + r.below(1000), 2 + r.below(1000)})); readers_during_rotations(r, p); }   // up to 13 keys: deeper trees, single and double rotations while readers traverse
+void gen_bronp(Rng& r, Program& p, int tier, const std::string&) { GenCfg g; g.caps = CAPS_BRONSON; g.nkeys_hot = r.pick({5, 5, 8, 10}); g.nkeys_cold = 3; g.max_ops = r.pick({6, 6, 8}); g.insert_forms = 1; gen_program(r, p, tier, g); p.set("prefill_order", r.pick({0, 1, 2 + r.below(1000), 2 + r.below(1000)})); readers_during_rotations(r, p); }
 
 #define COMPT(f) "real: " f ", SMR; simulated: scheduler + faults, forced skip-list tower heights / eager reclamation; oracle: linearizability vs ordered key->instance map, relaxed interval oracle for extract_min/max, quiescent traversal / consistency checks / true AVL heights"
 #define SUBJ(var, NAME, T, GEN, F) typedef T T_##var; SM_SUBJECT(var, NAME, "C15,C18,C20", T_##var, GEN, COMPT(F))
